@@ -270,6 +270,18 @@ func Quiet(q bool) {
 // Yield is an always-enabled scheduling point.
 func Yield(kind string) { Point(kind, nil, nil) }
 
+// FineOn switches the statement-level scheduling points (inserted by the instrumenter into the
+// files a check lists in fine.txt) on for the executions that follow. The runner sets it per
+// scenario; it is never changed inside an execution.
+var FineOn bool
+
+// Fine is a statement-level scheduling point: an always-enabled point when FineOn, nothing otherwise.
+func Fine(label string) {
+	if FineOn {
+		Point(label, nil, nil)
+	}
+}
+
 func (x *Exec) schedule(from *Thread) {
 	x.Steps++
 	x.lastEvent = time.Now().UnixNano()
